@@ -235,8 +235,25 @@ def _nonconstant(case):
 # ---------------------------------------------------------------------------------------------
 # running the real code
 # ---------------------------------------------------------------------------------------------
+_CTYPE = [None]        # coefficient type of the case being run (C05.numeric_types), None = as written
+
+
+def _num(v):
+    ct = _CTYPE[0]
+    if not ct:
+        return v
+    import fractions
+    import numpy as np
+    return {"fraction": lambda x: fractions.Fraction(x).limit_denominator(64), "np_float64": np.float64,
+            "np_int64_x4": lambda x: np.int64(round(4 * x)) if float(4 * x).is_integer() else np.float64(4 * x),
+            "np_float32": np.float32}[ct](v)
+
+
 def _build_leaf(e):
     op = e[0]
+    if _CTYPE[0] and op in ("m", "d"):
+        terms = {k: _num(v) for k, v in (e[2] if op == "m" else e[1]).items()}
+        return cls_of(e[1])(terms) if op == "m" else dict(terms)
     if op == "m":
         return cls_of(e[1])(e[2])
     if op == "acc":
@@ -333,7 +350,7 @@ def _check_expr(case, cancel_clause=False, check_type=False):
     if not cancel_clause and cl == "cancel":
         return Skip("terms of degree > 2 cancel: covered by C05.deg2_cancelling")
     try:
-        R = _run(e)
+        R = _run(case.get("run_expr", e))
     except KeyError as ex:
         if not _repo_keyerror():
             raise
@@ -683,6 +700,59 @@ def check_partial_order(case):
     under one stored key, so that models denoting the same function compare equal and their difference is empty.
     Non-trivial: result is non-constant."""
     return _check_expr(dict(case, expr=_thaw(case["expr"])))
+
+
+def _gen_numeric_types(ctx):
+    rng = ctx.rng("c05.ctypes")
+    n = ctx.pick(8, 150)
+    for ctype in ("fraction", "np_float64", "np_int64_x4", "np_float32"):
+        for spin in (False, True):
+            kinds = list(_types(spin)) + ["dict"]
+            for lk in kinds:
+                for rk in kinds:
+                    if lk == "dict" and rk == "dict":
+                        continue
+                    for op in ("+", "-", "*"):
+                        for _ in range(n // 8 + 1):
+                            labels = _pool(rng, (lk, rk), rng.choice([2, 3]))
+                            l = _operand(rng, lk, labels, spin, maxlen=2, max_terms=2)
+                            r = _operand(rng, rk, labels, spin, maxlen=2, max_terms=2)
+                            if l[0] not in ("m", "d") or r[0] not in ("m", "d"):
+                                continue
+                            yield {"kind": _kind(spin), "expr": (op, l, r), "ctype": ctype}
+
+
+@clause("C05.numeric_types", "C05", gen=_gen_numeric_types, nontrivial=_nonconstant)
+def check_numeric_types(case):
+    """the arithmetic contract of C05.add_sub / C05.mul for real coefficients that are not int / float instances
+    (fractions.Fraction, numpy.float64, numpy.float32, numpy.int64): same function on the full truth table, canonical
+    storage, no zero coefficients. The oracle evaluates the operands as written and scales where the coefficient
+    type scales (np_int64_x4 stores 4*v). Non-trivial: result is non-constant."""
+    ct = case["ctype"]
+    scale = 4 if ct == "np_int64_x4" else 1
+    e = case["expr"]
+
+    def scaled(leaf):
+        if leaf[0] == "m":
+            return ("m", leaf[1], {k: _exact(ct, v) * scale for k, v in leaf[2].items()})
+        return ("d", {k: _exact(ct, v) * scale for k, v in leaf[1].items()})
+    ref = (e[0], scaled(e[1]), scaled(e[2]))
+    _CTYPE[0] = ct
+    try:
+        # run the library on the typed coefficients, judge against the reference written with plain numbers
+        return _check_expr({"kind": case["kind"], "expr": ref, "run_expr": e})
+    finally:
+        _CTYPE[0] = None
+
+
+def _exact(ct, v):
+    import fractions
+    if ct == "fraction":
+        return fractions.Fraction(v).limit_denominator(64)
+    if ct == "np_float32":
+        import numpy as np
+        return float(np.float32(v))
+    return v
 
 
 NUM_LBL = [1, 2.5, 0, -0.5]      # numeric labels of two types: native `<` and ordering_key disagree on them
